@@ -4605,3 +4605,151 @@ def sup11(ctx):
             r.report("SUP-11|%s" % short, fn_loc(b), path,
                      "%s can return without going through %s: a shortcut that compares the segment and calls only some of the tier matchers skips the rest -- `a:[tone:5] > e` then matches `a` in a syllable of any tone (`tak5.ta` becomes `tek5.te`)" % (short, full[0].rsplit("::", 1)[-1]))
     return r
+
+
+# ---------------------------------------------------------------- POL-2: `[-F]` is asked as such, not as "not [+F]"
+
+def pol2(ctx):
+    """`Segment::feat_match(node, mask, positive)` is false for BOTH signs when the segment lacks the node that holds the
+    feature (a /t/ has no dorsal node: it is neither [+back] nor [-back]). So `[-F]` must be asked as
+    `feat_match(.., false)`: every call outside the accessor itself (a) hands a literal sign only inside the arm of a match
+    on BinMod with that very sign, and (b) has its result used as the verdict -- never negated or compared (`!x`,
+    `x == (sign)`) to derive the other polarity."""
+    r = RuleResult("POL-2", "Segment::feat_match: a literal sign argument agrees with the enclosing BinMod arm, and the result is never negated / compared to obtain the opposite sign", floor=6)
+    lib = ctx.lib
+    n = 0
+    for b in lib.bodies:
+        if b.in_test_mod() or not b.hir or b.kind == "closure" or b.path == "asca::seg::Segment::feat_match":
+            continue
+        root = b.hir["body"]
+        sites = [x for x in hirq.walk(root) if x["e"] == "mcall" and (x.get("def") or "") == "asca::seg::Segment::feat_match"]
+        if not sites:
+            continue
+        par = hirq.parent_map(root)
+        arm_sign = {}
+        for m in hirq.matches(b):
+            if (m.get("sty") or "").lstrip("&").endswith("parser::BinMod"):
+                for arm in m["arms"]:
+                    ps = [(p.get("path") or "").rsplit("::", 1)[-1] for p in hirq.flat_pats(arm["pat"]) if p.get("path")]
+                    if len(ps) == 1 and ps[0] in ("Positive", "Negative"):
+                        for y in hirq.walk(arm["body"]):
+                            arm_sign[id(y)] = ps[0] == "Positive"
+        for k, x in enumerate(sites):
+            n += 1
+            problems = []
+            a2 = hirq.strip(x["args"][2]) if len(x["args"]) >= 3 else {}
+            if a2.get("e") == "lit" and a2.get("lk") == "bool":
+                if id(x) not in arm_sign:
+                    problems.append("a literal sign `%s` outside any `match` on the modifier's BinMod" % str(a2["lit"]).lower())
+                elif arm_sign[id(x)] != a2["lit"]:
+                    problems.append("the literal sign `%s` in the %s arm" % (str(a2["lit"]).lower(), "Positive" if arm_sign[id(x)] else "Negative"))
+            p = par.get(id(x))
+            while p is not None and p.get("e") in ("addr", "block"):
+                p = par.get(id(p))
+            if p is not None and ((p.get("e") == "unary" and p.get("op") == "Not") or (p.get("e") == "binary" and p.get("op") in ("Eq", "Ne", "BitXor"))):
+                problems.append("its result is %s" % ("negated" if p.get("e") == "unary" else "compared (`%s`)" % p.get("op")))
+            short = b.path.rsplit("::", 1)[-1]
+            r.inst("%s: feat_match #%d asks for the sign it is given" % (short, k), fn_loc(b, x.get("ln")), "ok" if not problems else "report")
+            if problems:
+                r.report("POL-2|%s|#%d" % (short, k), fn_loc(b, x.get("ln")), b.path,
+                         "feat_match is called with %s: for a segment without the node both signs are false, so deriving `[-F]` as `not [+F]` makes every negative place feature match segments that lack the node -- `a > e / _[-back]` rewrites `pa.ti` to `pe.ti` (/t/ has no dorsal node)" % "; ".join(problems))
+    if n < 6:
+        raise AnchorMissing("POL-2: %d calls of Segment::feat_match found (expected >= 6)" % n)
+    return r
+
+
+# ---------------------------------------------------------------- ENV-10: the scan covers the whole word
+
+def env10(ctx):
+    """SubRule::apply scans the word left to right: `cur = 0:0; loop { (res, next) = input_match_at(word, cur); .. cur = next
+    .. }`. Every position is offered to the matcher: the cursor starts at the beginning of the word (literal 0:0), is only
+    ever moved to the position the matcher / transform handed back, and the loop ends only when there is no match or no
+    next position -- a skip-ahead to "the first promising segment" or an early stop "because nothing further can match"
+    decides matches without running the matcher."""
+    r = RuleResult("ENV-10", "SubRule::apply: the scan cursor starts at SegPos::new(0, 0), is reassigned only from the matcher's / transform's next position, and the loop is left only on no-match or end of word", floor=4)
+    lib = ctx.lib
+    b = ctx.fn(lib, "asca::subrule::SubRule::apply")
+    root = b.hir["body"]
+    par = hirq.parent_map(root)
+    im = [x for x in hirq.walk(root) if x["e"] == "mcall" and (x.get("def") or "") == "asca::subrule::SubRule::input_match_at"]
+    if len(im) != 1 or len(im[0]["args"]) < 2:
+        raise AnchorMissing("SubRule::apply: the call of input_match_at was not found")
+    cur = hirq.strip(im[0]["args"][1])
+    if cur.get("e") != "path" or "hid" not in cur:
+        raise AnchorMissing("SubRule::apply: input_match_at is not handed a cursor local")
+    chid, cname = cur["hid"], cur.get("local")
+    # the tuple the matcher returns: (res, next)
+    lt = par.get(id(im[0]))
+    while lt is not None and lt.get("e") != "let":
+        lt = par.get(id(lt))
+    names = [q.get("name") for q in hirq.walk_pats(lt["pat"]) if q.get("p") == "bind"] if lt is not None else []
+    if len(names) < 2:
+        raise AnchorMissing("SubRule::apply: the result of input_match_at is not destructured into (matches, next position)")
+    res_name, next_name = names[0], names[1]
+    # (a) initial value
+    init = None
+    for x in hirq.walk(root):
+        if x["e"] == "let" and x["pat"].get("p") == "bind" and x["pat"].get("hid") == chid:
+            init = hirq.strip(x.get("init") or {})
+    ok = init is not None and init.get("e") == "call" and (hirq.strip(init["f"]).get("path") or "").endswith("SegPos::new") and all(
+        hirq.strip(a_).get("e") == "lit" and hirq.strip(a_).get("lit") == 0 for a_ in init["args"])
+    r.inst("apply: the scan starts at SegPos::new(0, 0)", fn_loc(b, (init or {}).get("ln")), "ok" if ok else "report")
+    if not ok:
+        r.report("ENV-10|apply|start", fn_loc(b, (init or {}).get("ln")), b.path,
+                 "the scan does not start at the beginning of the word (`%s` is not initialised with SegPos::new(0, 0)): positions before the computed start are never offered to the matcher -- with an input set that mixes literals and groups, `{k, N} > ŋ / _#` leaves `tan` unchanged" % cname)
+    # (b) reassignments
+    binds = Bindings(root, b.hir.get("params"))
+    for x in hirq.walk(root):
+        if x["e"] == "assign" and hirq.strip(x["lhs"]).get("hid") == chid:
+            rhs = hirq.strip(x["rhs"])
+            good = False
+            if rhs.get("e") == "path" and "hid" in rhs:
+                s_ = binds.src.get(rhs["hid"])
+                if s_ and s_[0] == "expr":
+                    i0 = hirq.strip(s_[1])
+                    good = i0.get("e") == "path" and i0.get("local") == next_name
+            r.inst("apply: the cursor is moved to the position handed back by the matcher / transform", fn_loc(b, x.get("ln")), "ok" if good else "report")
+            if not good:
+                r.report("ENV-10|apply|move", fn_loc(b, x.get("ln")), b.path, "the scan cursor is assigned something else than the next position handed back by input_match_at / transform")
+    # (c) exits
+    lp = par.get(id(im[0]))
+    while lp is not None and lp.get("e") != "loop":
+        lp = par.get(id(lp))
+    if lp is None:
+        raise AnchorMissing("SubRule::apply: input_match_at is not called in a loop")
+    k = 0
+    for x in hirq.walk(lp):
+        if x["e"] not in ("break", "ret") or x.get("exp"):
+            continue
+        why = None
+        child, p = x, par.get(id(x))
+        while p is not None and p is not lp and why is None:
+            if p.get("e") == "if":
+                c = hirq.strip(p["cond"])
+                in_else = p.get("else") is not None and (p["else"] is child or any(y is child for y in hirq.walk(p["else"])))
+                if c.get("e") == "letcond" and hirq.strip(c["init"]).get("local") == next_name and in_else:
+                    why = "no next position"
+                mentions_res = any(y["e"] == "path" and y.get("local") == res_name for y in hirq.walk(c)) and any(y["e"] == "mcall" and y["name"] == "is_empty" for y in hirq.walk(c))
+                if mentions_res:
+                    neg = c.get("e") == "unary" and c.get("op") == "Not"
+                    in_then = p["then"] is child or any(y is child for y in hirq.walk(p["then"]))
+                    if (neg and in_else) or (not neg and in_then):
+                        why = "no match"
+            if p.get("e") == "block" and why is None:
+                # `if let Some(ci) = next { cur = ci; continue; }  break;` -- the exit follows the test in the same block
+                items = list(p.get("stmts", [])) + ([p["tail"]] if p.get("tail") is not None else [])
+                for st in items:
+                    if st is child or any(y is child for y in hirq.walk(st)):
+                        break
+                    s0 = hirq.strip(st)
+                    if s0.get("e") == "if":
+                        c0 = hirq.strip(s0["cond"])
+                        if c0.get("e") == "letcond" and hirq.strip(c0["init"]).get("local") == next_name and any(y["e"] == "continue" for y in hirq.walk(s0["then"])):
+                            why = "no next position"
+            child, p = p, par.get(id(p))
+        r.inst("apply: scan exit #%d is taken on %s" % (k, why or "another condition"), fn_loc(b, x.get("ln")), "ok" if why else "report")
+        if not why:
+            r.report("ENV-10|apply|exit#%d" % k, fn_loc(b, x.get("ln")), b.path,
+                     "the scan loop is left although the matcher found a match or could still look further (an exit that is neither `no match` nor `no next position`): positions after it are never examined -- an early stop computed for the longest alternative of an environment set skips positions a shorter alternative still matches")
+        k += 1
+    return r
